@@ -4,6 +4,10 @@ open Model
 open Conv
 
 let world : world option ref = ref None
+let sworld : sworld ref = ref sworld0
+let impl_res : string ref = ref ""
+let lineno : int ref = ref 0
+(* transactions whose spec/impl comparison is suspended: see DESIGN (known findings) *)
 let disk : disk ref = ref []
 let now : n ref = ref N0
 
@@ -88,7 +92,18 @@ let op_of (cmd : string) (a : string list) : op option =
   | "zgetbykey", [bk; k] -> Some (OZGetByKey (b bk, b k))
   | _ -> None
 
+let spec_check (callText : string) (c : call) : unit =
+  let commit_ok = (!impl_res = "ok") in
+  let (sw', r) = spec_step !now commit_ok !sworld c in
+  sworld := sw';
+  let sr = show_res r in
+  if sr <> !impl_res then
+    Printf.eprintf "SPEC %d %s impl=%s spec=%s\n" !lineno callText !impl_res sr
+
+let cur_call : string ref = ref ""
+
 let do_step (c : call) : string =
+  spec_check !cur_call c;
   match !world with
   | None -> "err"
   | Some w ->
@@ -99,11 +114,12 @@ let do_step (c : call) : string =
 
 let run_cmd (cmd : string) (a : string list) : string =
   match cmd, a with
-  | "reset", [] -> world := None; disk := []; "-"
+  | "reset", [] -> world := None; disk := []; sworld := sworld0; "-"
   | "now", [t] -> now := n_of_tok t; "-"
   | "open", [m; rw; ld; sy; seg] ->
     let o = { o_mode = n_of_tok m; o_rw = mode_of rw; o_load = mode_of ld; o_sync = bool_of sy; o_seg = n_of_tok seg } in
     let w = do_open o !disk in
+    spec_check !cur_call (COpen o);
     world := Some w; disk := w.w_disk; "ok"
   | "close", [] -> do_step CClose
   | "begin", [w; id] -> do_step (CBegin (w = "w", n_of_tok id))
